@@ -20,8 +20,10 @@ use bitar::{
 };
 
 async fn file_size(file: &mut File) -> Result<u64, std::io::Error> {
+    let size = file.seek(SeekFrom::End(0)).await?;
+    // Leave the cursor at the start: the file may be scanned for chunks next.
     file.seek(SeekFrom::Start(0)).await?;
-    file.seek(SeekFrom::End(0)).await
+    Ok(size)
 }
 
 async fn file_checksum(file: &mut File) -> Result<HashSum, std::io::Error> {
